@@ -89,7 +89,7 @@ def model_check(ctx):
         with open(cfg, "w") as f:
             f.write('SPECIFICATION Spec\nCONSTANTS\n  N = 3\n  Bug = "%s"\n  Group = "%s"\n  MaxLen = 3\nINVARIANT %s\n'
                     % (bug, group, law))
-        r = vlib.tlc("AlgebraMC", cfg, workers=2, timeout=900, xmx="2g", tag="AlgebraVac")
+        r = vlib.tlc("AlgebraMC", cfg, workers=2, timeout=900, xmx="2g", tag="AlgebraVac", expect=law)
         if law not in r.invariant_violated:
             raise vlib.Infra("vacuity guard: Bug=%s did not violate %s (group %s)\n%s" % (
                 bug, law, group, "\n".join(r.out.splitlines()[-20:])))
